@@ -254,6 +254,31 @@ def b_getattr(E, st, node, args, kw):
     return E.getattr_(st, o, name, ast.parse(f"_.{name}", mode="eval").body)
 
 
+def b_dict(E, st, node, args, kw):
+    items = {}
+    if args:
+        seq = E.as_seq(st, args[0])
+        if seq.items is None:
+            raise Unsupported("dict() of a symbolic sequence")
+        for kv in seq.items:
+            k, v = kv
+            if is_z3(k):
+                raise Unsupported("dict() with symbolic keys")
+            items[k] = v
+    items.update(kw)
+    return [(st, E.new_dict(st, items), None)]
+
+
+def b_hasattr(E, st, node, args, kw):
+    o, name = args
+    if not isinstance(name, str):
+        raise Unsupported("hasattr with symbolic name")
+    try:
+        return [(st, z3.Function(f"hasattr.{name}", U, z3.BoolSort())(to_U(o)), None)]
+    except Unsupported:
+        return [(st, E.fresh(f"hasattr.{name}", z3.BoolSort()), None)]
+
+
 def b_insort(E, st, node, args, kw):
     """bisect.insort(lst, x) — TRUSTED contract (bisect_right):
     requires sorted(lst); inserts x at the unique p with lst[:p] <= x < lst[p:]"""
@@ -305,6 +330,11 @@ def b_implies(E, st, node, args, kw):
     return [(st, implies(E.truthy(st, a), E.truthy(st, b)), None)]
 
 
+def b_path_join(E, st, node, args, kw):
+    f = z3.Function("path_join", U, U, U)
+    return [(st, f(to_U(args[0]), to_U(args[1])), None)]
+
+
 def b_unpath(E, st, node, args, kw):
     f = z3.Function("unPath", U, U)
     return [(st, f(to_U(args[0])), None)]
@@ -315,6 +345,7 @@ GLOBALS = {
     "exists": b_exists,
     "implies": b_implies,
     "unpath": b_unpath,
+    "path_join": b_path_join,
     "len": b_len,
     "str": b_str,
     "repr": b_repr,
@@ -331,6 +362,8 @@ GLOBALS = {
     "copy": b_copy,
     "bool": b_bool,
     "getattr": b_getattr,
+    "dict": b_dict,
+    "hasattr": b_hasattr,
     "bisect.insort": b_insort,
     "insort": b_insort,
 }
